@@ -1020,3 +1020,15 @@ def replay(check_name, case):
         if not same and K[clause].failed > len(K[clause].failures):
             same = K[clause].failures[:1]  # retained list is capped per category; the text still fails this clause
         return {"outcome": "confirmed" if same else "not-reproduced", "detail": {"failures": same[:3], "failed_evaluations_on_this_text": K[clause].failed}}
+
+
+# Checks whose oracle goes beyond the property statement (decided by the framework owner, see DESIGN.md
+# "false alarms corrected"): C11's agreement clauses speak of "every string and its encoded byte form" —
+# an ill-formed byte string is not the encoded form of any string, so for such input the statement only
+# requires that nothing raises and offsets stay in range (C11/invalid-*/no-exception, which stay binding).
+# Their results are kept in the evidence as observations and are not violations.
+INFORMATIONAL = {
+    "C11/invalid-utf8/functions-agree": "mutual agreement of move_*_char / calc_* on ILL-FORMED utf-8 is not demanded by the statement",
+    "C11/invalid-utf8/decode-one": "strict rejection of surrogates (ED A0..BF xx) is not demanded by the statement; ordinals stay below 0x110000",
+    "C11/invalid-double-byte/functions-agree": "mutual agreement on MALFORMED double-byte text (lone lead bytes) is not demanded by the statement",
+}
